@@ -10,6 +10,10 @@ Stateful ops:          reset | stake <svals> | reg <v> <accts> | sup <c> | act <
                        build <now> <picks> | onchain <id> <c> | jit <c> <pick 0|1> | valset <id> <c>
                        jitbus <c> <pick 0|1>   (SkywayBatchBuilt event: same update, error dropped)
                        jiteb <c> <pick 0|1>    (end blocker with a fee-paying message queued for <c>)
+                       brief <0|1>             (compact state lines for LONG histories: `n=<stored> lo=<lowest stored id>`
+                                                instead of every stored snapshot; a pure display switch)
+                       snap <id>               (`FindSnapshotByID`: the stored record or `none`)
+                       live <c>                (`GetLatestSnapshotOnChain`: the id or `none`)
 `build` answers `built <id> …`, `none …` (not worthy) or `panic …` (Go's `QuoInt(TotalShares)` divides
 by zero: `buildPanics`; the harness reports a panicking op the same way, with the state unchanged).
 -/
@@ -18,6 +22,7 @@ open Paloma.Valset
 
 structure State where
   s : St := St.init
+  brief : Bool := false
 
 def init : State := {}
 
@@ -76,7 +81,10 @@ def showState (d : State) : String :=
     | some c => toString c.id
     | none => "-"
   let q := (visibleQueue s).foldr insQ []
-  s!"last={s.lastId} cur={cur} snaps=" ++ listOr "-" "#" (s.snaps.map showSnapshot) ++
+  let snaps :=
+    if d.brief then s!"n={s.snaps.length} lo={(s.snaps.head?.map (·.id)).getD 0}"
+    else "snaps=" ++ listOr "-" "#" (s.snaps.map showSnapshot)
+  s!"last={s.lastId} cur={cur} " ++ snaps ++
     " q=" ++ listOr "-" "#" (q.map fun p => s!"{p.1}={showValset p.2}")
 
 def showRes : Res → String
@@ -93,6 +101,24 @@ def withRes (d : State) (r : St × Res) : State × String :=
 def step (d : State) (args : List String) : State × String :=
   match args with
   | ["reset"] => (init, "ok")
+  | ["brief", b] =>
+    match parseNat? b with
+    | some b => ({ d with brief := b != 0 }, "ok")
+    | none => (d, "bad-op")
+  | ["snap", i] =>
+    match parseNat? i with
+    | some i =>
+      match findSnapshot d.s i with
+      | some sn => (d, showSnapshot sn)
+      | none => (d, "none")
+    | none => (d, "bad-op")
+  | ["live", c] =>
+    match parseNat? c with
+    | some c =>
+      match latestOnChain d.s c with
+      | some sn => (d, toString sn.id)
+      | none => (d, "none")
+    | none => (d, "bad-op")
   | ["tx", c, vs] =>
     match parseNat? c, parseSep? "-" ";" parseVal? vs with
     | some c, some vs =>
